@@ -133,6 +133,15 @@ def gen_plan(rng, index, tier):
         for c in range(n):
             for _ in range(rng.choice([0, 1, 2])):
                 steps.append({"life": 0, "actor": "fuelHandler", "hook": "BOC", "cycle": c, "op": "swap", "a": rng.randrange(1000), "b": rng.randrange(1000)})
+    if cfg.get("fuelHandler") and cfg["blueprint"].get("sfp") and rng.random() < 0.35:
+        # discharge one assembly for a fresh one: objects are born in the middle of the run
+        for c in sorted(rng.sample(range(n), min(n, rng.choice([1, 2])))):
+            steps.append({"life": 0, "actor": "fuelHandler", "hook": "BOC", "cycle": c, "op": "discharge", "a": rng.randrange(1000)})
+        st["trackAssems"] = rng.random() < 0.6
+        late = [p for p in pts if p[0] in ("EveryNode", "EOC") and p[1] >= max(1, min(s_["cycle"] for s_ in steps if s_["op"] == "discharge"))]
+        if late and rng.random() < 0.7:
+            # ... and a reader that loads the first snapshot (older than those objects) after that
+            steps.append(_mk_step(0, rng.choice(actors)["name"], rng.choice(late), "peek", load=True))
     # duplicate write: only meaningful in an actor behind the database interface at EveryNode
     behind = [a for a in actors if a["order"] > 11.0]
     if behind and not coupling and rng.random() < 0.4:
@@ -140,7 +149,11 @@ def gen_plan(rng, index, tier):
         steps.append(_mk_step(0, rng.choice(behind)["name"], ("EveryNode", c, rng.randrange(bs + 1), None), "dupwrite"))
     for _ in range(rng.choice([0, 0, 1, 2])):
         # a reader peeking at the shared copy in the working directory in the middle of the run
-        steps.append(_mk_step(0, rng.choice(actors)["name"], rng.choice(pts), "peek"))
+        steps.append(_mk_step(0, rng.choice(actors)["name"], rng.choice(pts), "peek", load=rng.random() < 0.6))
+    if rng.random() < 0.35:
+        # an interface that asks the database interface for the history so far, several times
+        for _ in range(rng.randint(2, 4)):
+            steps.append(_mk_step(0, rng.choice(actors)["name"], rng.choice([p for p in pts if p[0] in ("EveryNode", "EOC", "BOC")] or pts), "dbihist"))
     if rng.random() < 0.12:
         # a halt request at BOC: the run stops there, end-of-life still runs (and writes)
         steps.append(_mk_step(0, rng.choice(actors)["name"], ("BOC", rng.randrange(n), None, None), "halt"))
@@ -173,6 +186,13 @@ def gen_plan(rng, index, tier):
         steps = [s for s in steps if s["op"] != "abort" and s.get("life", 0) == 0]
         cfg.pop("restart", None)
         steps.append(_mk_step(0, rng.choice(actors)["name"], rng.choice([p for p in pts if p[0] in ("BOC", "EveryNode", "EOC")]), "enospc", nth=rng.randint(1, 60)))
+    elif cfg.get("fuelHandler") and cfg["blueprint"].get("sfp") and n >= 2 and st.get("syncAfterWrite", True) and rng.random() < 0.3:
+        # scenario "born, then an older snapshot is loaded": a fresh assembly arrives at the start of
+        # a later cycle, then a reader loads the run's first snapshot in the process of the run
+        c = rng.randrange(1, n)
+        steps = [s for s in steps if not (s.get("life", 0) == 0 and s["op"] in ("abort", "halt"))]
+        steps.append({"life": 0, "actor": "fuelHandler", "hook": "BOC", "cycle": c, "op": "discharge", "a": rng.randrange(1000)})
+        steps.append(_mk_step(0, rng.choice(actors)["name"], ("EveryNode", c, rng.randrange(bs + 1), None), "peek", load=True))
     return {"config": cfg, "steps": steps}
 
 
@@ -358,6 +378,73 @@ def op_peek(d, st, actor):
                 raise OracleFailure("C06.midrun", f"snapshot {w['name']} in the shared copy differs from what was acknowledged", {"what": "content"})
     finally:
         f.close()
+    if st.get("load"):
+        _peek_load(d, actor, path, n)
+    return None
+
+
+def _peek_load(d, actor, path, n):
+    """The mid-run reader also *loads* the oldest synced snapshot of this life, in the process of the
+    run: it must be the state as of that write, and loading must not disturb the run - objects
+    created afterwards still get serial numbers no live object carries (histories match by them)."""
+    from armi.bookkeeping.db.database import Database
+    from armi.reactor.composites import Composite
+
+    mine = [w for w in d.writes if w["life"] == d.life][:n]
+    if not mine:
+        return
+    w = mine[0]
+    with Database(path, "r") as db:
+        old = db.load(w["cycle"], w["node"], cs=actor.o.cs, bp=actor.o.r.blueprints, statePointName=w["label"] or None, allowMissing=True)
+    got = sentinel_map(old)
+    for sn, v in w["sent"].items():
+        if got.get(sn, "<absent>") != v:
+            raise OracleFailure("C06.isolation", f"mid-run load of {w['name']}: object serial {sn} has {got.get(sn, '<absent>')}, it had {v} when that snapshot was acknowledged", {"what": "midrun-load"})
+    live = {int(o.p.serialNum) for o in all_objects(actor.o.r)}
+    top = max(live)
+    for _ in range(20000):  # the next objects to be born (a fresh assembly is a few dozen objects)
+        probe = Composite("probe")
+        sn = int(probe.p.serialNum)
+        if sn in live:
+            raise OracleFailure("C06.identity", f"an object created after loading the older snapshot {w['name']} in the middle of the run got serial number {sn}, which a live object of the run carries (histories match objects by serial number)", {"what": "serial-reused"})
+        if sn > top:
+            break
+    d.probes["midrun_loads"] += 1
+
+
+def op_dbihist(d, st, actor):
+    """An interface asks the database interface for the core's history up to now, handing it the
+    same list of steps it keeps for that purpose every time."""
+    o = actor.o
+    dbi = o.getInterface("database")
+    if dbi is None or dbi._db is None or not dbi._db.isOpen():
+        return None
+    r = o.r
+    now = (int(r.p.cycle), int(r.p.timeNode))
+    steps = d.hsteps.setdefault(d.life, [])
+    mine = [w for w in d.writes if w["life"] == d.life and "sent" in w]
+    for w in mine:
+        t = (w["cycle"], w["node"])
+        if t not in steps and (t <= now):
+            steps.append(t)
+    if now not in steps:
+        steps.append(now)
+    before = list(steps)
+    h = dbi.getHistory(r.core, ["vSent"], steps)
+    if steps != before:
+        raise OracleFailure("C06.history", f"DatabaseInterface.getHistory changed the caller's list of steps: {before} -> {steps}", {"what": "caller-list"})
+    got = {(int(a), int(b)): (None if v is None else float(v)) for (a, b), v in h["vSent"].items()}
+    if sorted(got) != sorted(before):
+        raise OracleFailure("C06.history", f"DatabaseInterface.getHistory(timeSteps={before}) at {now} returned steps {sorted(got)}", {"what": "midrun-steps"})
+    sn = int(r.core.p.serialNum)
+    for t, v in got.items():
+        if t == now:
+            allowed = [None if r.core.p.vSent is None else float(r.core.p.vSent)]
+        else:
+            allowed = [w["sent"].get(sn) for w in mine if (w["cycle"], w["node"]) == t]
+        if v not in allowed:
+            raise OracleFailure("C06.history", f"DatabaseInterface.getHistory at {now}: core vSent at {t} = {v}; it had {allowed}", {"what": "midrun-value"})
+    d.probes["midrun_history_queries"] += 1
     return None
 
 
@@ -543,8 +630,9 @@ def check_history(path, log_entries, cs, nobj, pick, probes):
             sn = int(obj.p.serialNum)
             h = hist[obj]["vSent"]
             got_keys = sorted((int(a), int(b)) for a, b in h.keys())
-            if got_keys != sorted(by_time):
-                raise OracleFailure("C06.history", f"getHistories lists steps {got_keys}, written steps are {sorted(by_time)}", {"what": "steps"})
+            existed = sorted(t for t, ents in by_time.items() if any(sn in e["sent"] for e in ents))  # (a fresh assembly has no past)
+            if got_keys != existed:
+                raise OracleFailure("C06.history", f"getHistories lists steps {got_keys}, the object was written at steps {existed}", {"what": "steps"})
             for (a, b), v in h.items():
                 allowed = [e["sent"].get(sn) for e in by_time[(int(a), int(b))]]
                 v = None if v is None else float(v)
@@ -559,6 +647,8 @@ def check_history(path, log_entries, cs, nobj, pick, probes):
             sn = int(obj.p.serialNum)
             h = hist[obj]["vSent"]
             for t in sub:
+                if sn not in log_entries[f"c{t[0]:02d}n{t[1]:02d}"]["sent"]:
+                    continue  # the object did not exist yet at that step (a fresh assembly has no past)
                 if t not in h:
                     raise OracleFailure("C06.history", f"getHistories(timeSteps={sub}) misses {t}", {"what": "subset"})
                 v = h[t]
@@ -750,7 +840,8 @@ def diskfull_run(plan, cfg, cs, o, d, scratch, title, log, clock, simos):
 def execute(plan):
     cfg = plan["config"]
     log, scratch, clock, simos, d = enginea.new_run(plan)
-    d.ops.update({"set": op_set, "dupwrite": op_dupwrite, "_before_abort": before_abort, "peek": op_peek, "enospc": op_enospc})
+    d.ops.update({"set": op_set, "dupwrite": op_dupwrite, "_before_abort": before_abort, "peek": op_peek, "dbihist": op_dbihist, "enospc": op_enospc})
+    d.hsteps = {}
     d.scratch = scratch
     d.synced_upto = {}
 
